@@ -247,7 +247,9 @@ class _CommonFile:
         records = self._records
         existing = key in records
         records[key] = value
-        if not existing:
+        if not existing and (_RECORD, key) not in self._source:
+            # NOTE: a deleted key keeps its (lazily skipped) slot in _source,
+            #       so re-adding it reuses that slot instead of adding a second one.
             self._source.append((_RECORD, key))
         return existing
 
